@@ -231,15 +231,24 @@ fn run_schedule(tpl: &Template, case: &Case, prefix: &[usize]) -> RunOut {
         let mut sub_rx_out: Option<tokio::sync::mpsc::Receiver<(Bytes, QueryEventMeta)>> = None;
         let mut step = 0;
         loop {
+            // enabled actors in the order that makes choice 0 the non-preemptive one: the actor
+            // that ran last (if it can go on), then forwarder, subscriber, matcher. Departures from
+            // choice 0 are therefore preemptions (or a pick other than the default at a free switch)
             let mut enabled: Vec<Act> = vec![];
-            if !m_done && parked("M").is_some() {
-                enabled.push(Act::M);
-            }
             if SENT.load(SeqCst) > forwarded {
                 enabled.push(Act::P);
             }
             if c_state == 0 || (c_state == 1 && parked("C").is_some()) {
                 enabled.push(Act::C);
+            }
+            if !m_done && parked("M").is_some() {
+                enabled.push(Act::M);
+            }
+            if let Some((last, _)) = out.acts.last() {
+                if let Some(pos) = enabled.iter().position(|a| a == last) {
+                    let a = enabled.remove(pos);
+                    enabled.insert(0, a);
+                }
             }
             if enabled.is_empty() {
                 if m_done && c_state == 2 {
@@ -808,6 +817,7 @@ fn main() {
             Case { pre: 0, n: 1, from: None, skip_rows: false },
             Case { pre: 1, n: 1, from: Some(0), skip_rows: false },
             Case { pre: 1, n: 1, from: Some(1), skip_rows: false },
+            Case { pre: 1, n: 2, from: Some(1), skip_rows: false },
         ],
         Tier::Thorough => vec![
             Case { pre: 0, n: 1, from: None, skip_rows: false },
@@ -817,6 +827,15 @@ fn main() {
             Case { pre: 0, n: 2, from: None, skip_rows: false },
             Case { pre: 1, n: 2, from: Some(1), skip_rows: false },
         ],
+    };
+    // debugging aid: VH_C12_CASE="pre,n,from|none" VH_C12_LEVEL=k explores one case to bound k
+    let (cases, level_override): (Vec<Case>, Option<usize>) = match std::env::var("VH_C12_CASE") {
+        Ok(v) => {
+            let p: Vec<&str> = v.split(',').collect();
+            let from = p.get(2).and_then(|x| x.parse::<u64>().ok());
+            (vec![Case { pre: p[0].parse().unwrap(), n: p[1].parse().unwrap(), from, skip_rows: false }], std::env::var("VH_C12_LEVEL").ok().and_then(|x| x.parse().ok()))
+        }
+        Err(_) => (cases, None),
     };
     // the client library's side of the property first (cheap, exhaustive, no time cap)
     let client_cases = client_part(&rep, cli.tier);
@@ -830,13 +849,14 @@ fn main() {
     }
     // quick: every schedule with at most 2 departures from the default order, for both cases
     // (deterministic work); the wall-clock cap is a safety net
-    let max_level: usize = cli.tier.pick(2, 64) as usize;
+    let max_level: usize = level_override.unwrap_or(cli.tier.pick(2, 64) as usize);
     let deadline = Instant::now() + Duration::from_secs(cli.tier.pick(300, 1700));
     let mut total = 0u64;
     let mut steps = 0u64;
     let mut capped = None;
-    // deviation-bounded exploration: all schedules with 0 departures from the default order
-    // (matcher first, then forwarder, then subscriber) for every case, then 1 for every case, ...
+    // preemption-bounded exploration: all schedules with 0 departures from the default choice (keep
+    // running the actor that ran last; at a free switch forwarder, then subscriber, then matcher) for
+    // every case, then 1 for every case, ...
     let mut buckets: Vec<Vec<Vec<Vec<usize>>>> = cases.iter().map(|_| vec![vec![vec![]]]).collect();
     let mut counts = vec![0u64; cases.len()];
     let mut bound_completed: Vec<i64> = vec![-1; cases.len()];
